@@ -434,7 +434,7 @@ func (s *c15Sys) step(op map[string]interface{}, now int64) map[string]interface
 		return errS("notFound")
 	}
 	ctx := s.ctx()
-	ctx.SetLoc(loc)
+	ctx.SetLoc(s.lastUsedElsewhere(name, loc)) // a caller that reuses its context: last used with another location
 	switch kind {
 	case "addFact", "addRule":
 		key := "fact"
